@@ -25,7 +25,7 @@ def programs(ctx):
         vn = rng.sample(VARIANT_NAMES, 4)
         td = F.random_typedef(rng, SUBSETS[i % len(SUBSETS)], fnames=fn, vnames=vn, tymap=tymap, generic_p=0.5)
         tn = rng.choice(TYPE_NAMES)
-        pn = rng.choice([p for p in PARAM_NAMES if p != tn])
+        pn = rng.choice([p for p in PARAM_NAMES if p.replace("r#", "") != tn.replace("r#", "")])
         td.hostile = {"type": tn, "param": pn}
         p = F.build_prog("p_%04d" % i, td, want=("PartialEq", "PartialOrd", "Ord", "Hash"))
         p.meta["describe"] = "type=%s param=%s fields=%s variants=%s :: %s" % (tn, pn, ",".join(fn), ",".join(vn), p.meta["describe"])
@@ -82,7 +82,7 @@ def run(ctx):
     for i in range(n):
         names = {"X": rng.choice([t for t in TYPE_NAMES if t not in ("Option", "Sized")]), "T": rng.choice(["H", "T", "F", "Rhs", "Output", "U", "r#type", "r#fn", "r#struct"]), "N": rng.choice(["N", "M", "LEN", "r#match"]),
                  "a": rng.choice(["'a", "'__b", "'b", "'r", "'state"]).replace("'__b", "'b"), "f": rng.sample(FIELD_NAMES[:16], 4), "v": rng.sample(VARIANT_NAMES, 4)}
-        if names["T"] == names["X"]:
+        if names["T"].replace("r#", "") == names["X"].replace("r#", ""):
             names["T"] = "U"
         cprogs.append(fam2.c20_prog("p_%04d" % i, rng, names=names))
     rejected = 0
